@@ -8,8 +8,11 @@ run is first executed fault-free and its archive recorded; then, for EVERY
 fault armed at exactly that event, followed by a fault-free recovery run on the
 same instance.  Four ways of aborting: an exception inside a function
 (simfault), a planted bad cell under add() (argument mismatch), a
-per-member 'validation-mode: raise' under a policy without raise, and a failure
-raised outside every match expression (collect() projection on a short record)."""
+per-member 'validation-mode: raise' under a policy without raise, a failure
+raised outside every match expression (collect() projection on a short record),
+a function error that itself carries a cause (simfault "chain" site; date() on an
+unparsable cell), and a foreign exception class raised while last() is evaluated
+on a blank final line (outside Expression.matches and Function.matches)."""
 import json
 import os
 
@@ -20,7 +23,8 @@ from . import c09
 ID = "C18"
 TIERS = {"quick": {"n": 320, "chunk": 4}, "thorough": {"n": 9000, "chunk": 20, "wall_cap": 3300}}
 RULE = (
-    "each scenario: file of 2-8 records (blanks anywhere), 1-4 members with seeded scan windows, one of 7 run forms, abort kind in {exception in a function, argument mismatch from a planted cell, validation-mode: raise on one member}, "
+    "each scenario: file of 2-8 records (blanks anywhere), 1-4 members with seeded scan windows, one of 7 run forms, abort kind in {exception in a function, chained exception in a function, argument mismatch from a planted cell, date() on an unparsable planted cell, validation-mode: raise on one member, "
+    "collect() projection on a short record, raw exception under last() on a blank final line}, "
     "policy with raise (+/- collect, stop, fail, print, quiet); the fault-free run is recorded, then the run is repeated with the abort armed at every (member, line) evaluation event in turn (complete sweep per scenario), each "
     "followed by a recovery run on the same instance (clock +0s or +1s). evaluations counts scenarios; abort_points counts aborted runs. Non-trivial = at least one abort point; distinct = (method, #members, abort kind, policy, "
     "position classes covered: first/last scanned line, first/last member, after a blank)."
@@ -33,7 +37,8 @@ ASSUMPTIONS = [
 REAL = REAL_ALL
 STUB = STUB_ALL + c09.STUB[-1:]
 
-KINDS = ["exc_match", "exc_match", "arg_type", "vmode_raise", "limit_raise"]
+KINDS = ["exc_match", "exc_match", "arg_type", "vmode_raise", "limit_raise", "exc_chained", "date_raise", "lasts_exc"]
+CELL = ("arg_type", "limit_raise", "date_raise")  # kinds whose fault is a planted cell, not an armed simfault
 POLICIES = [["raise", "collect"], ["raise", "collect", "print"], ["raise", "collect", "stop", "fail", "print"], ["raise", "collect", "fail"], ["raise", "collect", "quiet"], ["raise"], ["raise", "print"]]
 
 
@@ -51,7 +56,7 @@ def generate(rng, i, tier):
             sk = f"{a}-{rng.randint(a + 1, nrec)}"
         scans.append(sk)
     kind = rng.choice(KINDS)
-    if kind in ("arg_type", "limit_raise"):
+    if kind in CELL:
         # the header record is itself an argument mismatch for add() (and must stay whole for collect()): keep line 0 out of every window
         fixed = []
         for sk in scans:
@@ -117,7 +122,7 @@ def reductions(sc):
     if sc["method"] != "collect_paths":
         yield with_(sc, method="collect_paths")
     for j, s in enumerate(sc["scans"]):
-        simplest = "1*" if sc["kind"] in ("arg_type", "limit_raise") else "*"
+        simplest = "1*" if sc["kind"] in CELL else "*"
         if s != simplest:
             c = with_(sc)
             c["scans"][j] = simplest
@@ -144,6 +149,9 @@ def scanned(sc, j):
     else:
         a, b = s.split("-")
         inc = range(int(a), int(b) + 1)
+    if sc["kind"] == "lasts_exc":
+        # the file ends with a blank line (index n): that is where last() fires, outside every match expression
+        return [l for l in inc if l < n and l not in sc["blanks"]] + ([n] if n in inc or s.endswith("*") else [])
     return [l for l in inc if l < n and l not in sc["blanks"]]
 
 
@@ -154,7 +162,9 @@ def points(sc):
         if sc["kind"] == "vmode_raise" and j != sc["vmode_member"]:
             continue
         for l in scanned(sc, j):
-            if sc["kind"] in ("arg_type", "limit_raise") and l == 0:
+            if sc["kind"] in CELL and l == 0:
+                continue
+            if sc["kind"] == "lasts_exc" and l != sc["nrec"]:
                 continue
             pts.append((j, l))
     return pts
@@ -164,7 +174,13 @@ def member_text(sc, j):
     head = f"id:m{j}"
     if sc["kind"] == "vmode_raise" and sc["vmode_member"] == j:
         head += " validation-mode:raise"
-    prov = f"@s = add(#n{j}, 1)" if sc["kind"] == "arg_type" else (f'collect("id", "n{j}")' if sc["kind"] == "limit_raise" else 'simfault("s")')
+    prov = {
+        "arg_type": f"@s = add(#n{j}, 1)",
+        "limit_raise": f'collect("id", "n{j}")',
+        "date_raise": f'date(#n{j}, "%Y-%m-%d")',
+        "exc_chained": 'simfault("schain")',
+        "lasts_exc": 'last() -> @x = simfaultv("s")',
+    }.get(sc["kind"], 'simfault("s")')
     pr = f' print("m{j} at $.csvpath.line_number")' if sc["prints"][j] else ""
     return f'~{head}~ $[{sc["scans"][j]}][ push("pre", line_number()) {prov} @c = count(){pr} ]'
 
@@ -177,10 +193,15 @@ def build_rows(sc, bad=None):
         if l in sc["blanks"]:
             rows.append([])
             continue
-        row = [f"r{l}"] + [("zz" if (bad == (j, l) and sc["kind"] == "arg_type") else str((l * 3 + j) % 9 + 1)) for j in range(k)]
+        if sc["kind"] == "date_raise":
+            row = [f"r{l}"] + [("zz" if bad == (j, l) else f"2024-0{(l + j) % 9 + 1}-1{j}") for j in range(k)]
+        else:
+            row = [f"r{l}"] + [("zz" if (bad == (j, l) and sc["kind"] == "arg_type") else str((l * 3 + j) % 9 + 1)) for j in range(k)]
         if sc["kind"] == "limit_raise" and bad is not None and bad[1] == l:
             row = row[: bad[0] + 1]  # the record ends before member bad[0]'s column
         rows.append(row)
+    if sc["kind"] == "lasts_exc":
+        rows.append([])
     return rows
 
 
@@ -236,6 +257,7 @@ def execute(sc):
         seams.reset(sc["seed"])
         S = scanned(sc, i)
         at_last = bool(S) and L == S[-1]
+        site = "schain" if sc["kind"] == "exc_chained" else "s"
         facts = {"method": meth, "kind": sc["kind"], "at_last_scanned_line": at_last, "byline": byline}
         classes.update(
             x
@@ -244,9 +266,9 @@ def execute(sc):
         )
         where = f"{meth} policy {sc['policy']} kind {sc['kind']} abort at member m{i} line {L} (scans {sc['scans']}, blanks {sc['blanks']})"
         with W.World(csvpath_policy=sc["policy"]) as w:
-            cs = _setup(sc, w, bad=(i, L) if sc["kind"] in ("arg_type", "limit_raise") else None)
+            cs = _setup(sc, w, bad=(i, L) if sc["kind"] in CELL else None)
             stores = W.tree_hashes("inputs")
-            extfuncs.arm(plan=[] if sc["kind"] in ("arg_type", "limit_raise") else [(f"m{i}", L, "s")])
+            extfuncs.arm(plan=[] if sc["kind"] in CELL else [(f"m{i}", L, site)])
             c09.TEE.clear()
             exc = None
             try:
@@ -289,7 +311,7 @@ def execute(sc):
                     # finished earlier: must equal the fault-free run's record
                     r0 = ref[f"m{j}"]
                     # under arg_type the data file differs from the reference run in one cell, which shows in data/unmatched rows only
-                    keys = ("vars", "printouts", "errors", "valid", "completed") if sc["kind"] in ("arg_type", "limit_raise") else ("vars", "data", "unmatched", "printouts", "errors", "valid", "completed")
+                    keys = ("vars", "printouts", "errors", "valid", "completed") if sc["kind"] in CELL else ("vars", "data", "unmatched", "printouts", "errors", "valid", "completed")
                     for key in keys:
                         if json.dumps(snap[key], sort_keys=True) != json.dumps(r0[key], sort_keys=True):
                             out.v("earlier_member_incomplete", f"{mw} finished before the abort but its {key} {snap[key]!r:.200} differs from the fault-free run {r0[key]!r:.200}", field=key, **facts)
@@ -301,7 +323,7 @@ def execute(sc):
                 out.v("stores_changed", f"{where}: inputs/ (named files / named paths) changed during the aborted run", **facts)
             # ---- recovery: the next run on the same instance archives normally ----
             extfuncs.arm()
-            if sc["kind"] in ("arg_type", "limit_raise"):
+            if sc["kind"] in CELL:
                 # the recovery run needs a file without the bad cell: re-register the clean file
                 w.write_csv("src/f.csv", build_rows(sc))
                 with ops.quiet():
@@ -326,7 +348,8 @@ def execute(sc):
                 if changed:
                     out.v("recovery_modified_aborted_run", f"{where}: the following run changed {changed[:3]} of the aborted run", **facts)
             c09.check_run_archive(out, cs, "g", members, where + " / recovery run", collecting=meth in ops.COLLECTING, facts=dict(facts, phase="recovery"))
-        if out.violations:
+        # (the recorded known finding - completed: true after an abort on the last scanned line - does not end the sweep)
+        if any(not (v["clause"] == "aborted_member_completed" and v["facts"].get("at_last_scanned_line")) for v in out.violations):
             break
     out.sig = [meth, k, sc["kind"], sc["policy"], sorted(classes)]
     out.nontrivial = bool(pts)
